@@ -37,7 +37,7 @@ fn child(args: &[String]) -> ! {
         .position(|a| a == "--dump")
         .map(|i| PathBuf::from(&args[i + 1]));
     vcommon::install_quiet_panic_hook();
-    let all = backends::all_bvs();
+    let all = backends::bvs_format_once();
     // the front end runs once per process, like in the CLI
     let loaded = vcommon::catch(|| backends::load(&wit));
     if let Ok(Ok((resolve, world))) = &loaded {
@@ -293,6 +293,8 @@ fn main() {
     let so = shim::build(&tmp);
     let ctx = Ctx { exe, so, tmp: tmp.clone() };
     let k: u64 = run.pick(8, 64);
+    // the corpus worlds are many and mostly small: half the seeds in the quick tier
+    let k_corpus: u64 = run.pick(4, 64);
 
     // ---- the seeds must really own the hash order ---------------------------------------
     let probe = |seed: u64| split_out(&run_child(&ctx, seed, &["probe".to_string()])).0;
@@ -372,7 +374,7 @@ fn main() {
             json!({"wit_path_in_repo": rel}),
         ));
     }
-    let bvs: Vec<Bv> = backends::all_bvs();
+    let bvs: Vec<Bv> = backends::bvs_format_once();
     let all_labels = bvs.iter().map(|b| b.label()).collect::<Vec<_>>().join(",");
     let rot = (run.seed as usize) % worlds.len();
 
@@ -400,7 +402,8 @@ fn main() {
             m
         };
         let base = run_seed(0);
-        let others: Vec<(u64, BTreeMap<String, String>)> = (1..k).map(|s| (s, run_seed(s))).collect();
+        let kw = if worlds[wi].0.starts_with("corpus:") { k_corpus } else { k };
+        let others: Vec<(u64, BTreeMap<String, String>)> = (1..kw).map(|s| (s, run_seed(s))).collect();
         let mut out = Vec::new();
         let mut dumps: BTreeMap<u64, (PathBuf, BTreeMap<String, String>)> = BTreeMap::new();
         for (bi, b) in bvs.iter().enumerate() {
@@ -470,10 +473,10 @@ fn main() {
             continue;
         }
         compared += 1;
-        generations += k;
+        generations += if worlds[wi].0.starts_with("corpus:") { k_corpus } else { k };
         e.0 += 1;
         distinct_outputs.insert(format!("{label}|{}", r["out_hash"].as_str().unwrap()));
-        samples.offer(|| json!({"world": worlds[wi].0, "backend_variant": label, "files": r["files"], "seeds_compared": k, "differing_seeds": r["differing_seeds"]}));
+        samples.offer(|| json!({"world": worlds[wi].0, "backend_variant": label, "files": r["files"], "seeds_compared": if worlds[wi].0.starts_with("corpus:") { k_corpus } else { k }, "differing_seeds": r["differing_seeds"]}));
         if !r["diff"].is_null() {
             e.1 += 1;
             let key = format!("{label}:{}", r["diff"]["kind"].as_str().unwrap());
@@ -487,8 +490,8 @@ fn main() {
             detail["difference"] = r["diff"]["info"].clone();
             let size = worlds[wi].2["wit_text"].as_str().map(|t| t.len()).unwrap_or(1 << 20);
             let what = format!(
-                "`wit-bindgen {}` on {} produces different output in processes with hash seed 0 and seed {} ({} of {} seeds differ): {}",
-                label.replace(':', " variant "), worlds[wi].0, r["diff"]["seed"], r["differing_seeds"].as_array().unwrap().len(), k - 1, r["diff"]["info"]
+                "`wit-bindgen {}` on {} produces different output in processes with hash seed 0 and seed {} ({} of {} other seeds differ): {}",
+                label.replace(':', " variant "), worlds[wi].0, r["diff"]["seed"], r["differing_seeds"].as_array().unwrap().len(), if worlds[wi].0.starts_with("corpus:") { k_corpus } else { k } - 1, r["diff"]["info"]
             );
             let v = viol.entry(key).or_insert(V { count: 0, what: what.clone(), detail: detail.clone(), size });
             v.count += 1;
@@ -519,6 +522,7 @@ fn main() {
         "rule": "distinct (backend:variant, hash of all generated file names+bytes at seed 0) pairs among the (world, backend:variant) pairs that generated successfully and were compared across all K seeds; evaluations = real generations compared (pairs × K); processes = child processes, one per (world, seed), each running every backend:variant in the same fixed order",
         "exhaustive": true,
         "seeds_K": k,
+        "seeds_K_for_corpus_worlds": k_corpus,
         "seed_alphabet": "VERIF_HASH_SEED = 0..K-1 → splitmix64 stream returned by the interposed getrandom(); ASLR on",
         "interposition_probe": {"seed0_twice_same_order": p0 == p0b, "distinct_HashSet_orders_among_seeds_1_to_K-1": others.len(),
                                  "two_unseeded_processes_differ": unseeded.0 != unseeded.1},
@@ -543,6 +547,7 @@ fn main() {
             "only std RandomState (and everything else that calls getrandom) is owned by the seed; hashers seeded from addresses vary with ASLR, which is left on and would show up as a difference too".into(),
             "pairs whose seed-0 generation returns Err or panics (unsupported features, see C16) are skipped and counted".into(),
             "go runs with --format=false (gofmt is not installed; the default only tries to spawn it)".into(),
+            "rust --format is applied on the default variant only (it post-processes the finished text and is 3/4 of the Rust generator's cost)".into(),
         ],
     )
 }
